@@ -16,18 +16,18 @@ Theorem C13_length : forall ms, ms <> [] -> length_num ms = sumz (firstn (S (len
 Proof. exact length_is_last. Qed.
 Print Assumptions C13_length.
 
-(* play: never before the scheduled time, for every pattern of oversleeps (>= 0) and consumer holds (>= 0) *)
+(* play: never before the scheduled time, for every pattern of oversleeps (>= 0) and consumer holds (>= 0); times are integers
+   in any fixed unit *)
 Theorem C13_play_not_early : forall mm start ms clock input_time k eps holds, nonneg eps -> nonneg holds ->
-  Forall2 (fun yc s => snd yc >= start + s) (play mm start clock input_time k ms eps holds)
+  Forall2 (fun yc s => (start + s <= snd yc)%Z) (play mm start clock input_time k ms eps holds)
           (map snd (filter (fun p => negb (q_meta (fst p) && negb mm)) (combine ms (sched input_time ms)))).
 Proof. exact play_not_early. Qed.
 Print Assumptions C13_play_not_early.
-(* play: with exact sleeps, a message goes out at its scheduled time, or at once if the consumer came back later: no drift *)
+(* play: with exact sleeps a message goes out at max(its scheduled time, the time the consumer came back): no accumulated drift *)
 Theorem C13_play_no_drift : forall mm start m r clock input_time k holds, q_meta m && negb mm = false ->
-  exists c rest, play mm start clock input_time k (m :: r) [] holds = (k, c) :: rest /\
-    (clock - start <= input_time + q_delta m -> c == start + (input_time + q_delta m)) /\
-    (input_time + q_delta m <= clock - start -> c == clock) /\
-    rest = play mm start (c + hd 0 holds) (input_time + q_delta m) (S k) r [] (tl holds).
+  play mm start clock input_time k (m :: r) [] holds =
+    (k, Z.max (start + (input_time + q_delta m)) clock) ::
+    play mm start (Z.max (start + (input_time + q_delta m)) clock + hd 0%Z holds) (input_time + q_delta m)%Z (S k) r [] (tl holds).
 Proof. exact play_no_drift. Qed.
 Print Assumptions C13_play_no_drift.
 (* play yields the messages of iteration in order, meta messages only on request *)
